@@ -40,7 +40,8 @@ DataArray World::arr_at(int b, int slot) {
 }
 DataFrame World::frame_at(int b, int slot) {
     Block B = blk(b); if (!B) return DataFrame();
-    ndsize_t n = B.dataFrameCount(); if (!n) return DataFrame();
+    ndsize_t n = B.dataFrameCount();
+    if (!n) return DataFrame();
     return via_live(2, B.getDataFrame(((unsigned) slot) % n), &Kept::frame);
 }
 Tag World::tag_at(int b, int slot) {
@@ -224,13 +225,14 @@ int World::mk_graph(const Op &op) {
     // arrays
     auto array = [&](const std::string &n, const NDSize &shape) { DataArray x; if (b.hasDataArray(n)) x = b.getDataArray(n); else STEP(x = b.createDataArray(n, "t", DataType::Double, shape)); return x; };
     DataArray d = array(P + "_d", NDSize({3, 4})), pos = array(P + "_pos", NDSize({2, 2})), ext = array(P + "_ext", NDSize({2, 2})), ft = array(P + "_ft", NDSize({4}));
-    if (d && d.dimensionCount() == 0) { STEP(d.appendSetDimension({"a", "b", "c"})); STEP(d.appendSampledDimension(0.5, "time", "ms")); }
+    if (d && d.dimensionCount() == 0) { dims.erase(d.id());     /* (an array of that name may have come from a create operation, with a descriptor model) */
+        STEP(d.appendSetDimension({"a", "b", "c"})); STEP(d.appendSampledDimension(0.5, "time", "ms")); }
     { const double pv[] = {0, 0, 1, 1}; if (pos) STEP(pos.setData(DataType::Double, pv, NDSize({2, 2}), NDSize({0, 0}))); }
     { const double ev[] = {1, 1, 1, 2}; if (ext) STEP(ext.setData(DataType::Double, ev, NDSize({2, 2}), NDSize({0, 0}))); }
     DataFrame fr;
     { std::vector<Column> cols(2); cols[0].name = "x"; cols[0].unit = "mV"; cols[0].dtype = DataType::Double; cols[1].name = "n"; cols[1].unit = ""; cols[1].dtype = DataType::String;
       if (b.hasDataFrame(P + "_fr")) fr = b.getDataFrame(P + "_fr"); else STEP(fr = b.createDataFrame(P + "_fr", "t", cols)); }
-    if (fr && ft && ft.dimensionCount() == 0 && on()) STEP(ft.appendDataFrameDimension(fr, 0u));
+    if (fr && ft && ft.dimensionCount() == 0 && on()) { dims.erase(ft.id()); STEP(ft.appendDataFrameDimension(fr, 0u)); }
     // tag
     Tag T; if (b.hasTag(P + "_tag")) T = b.getTag(P + "_tag"); else STEP(T = b.createTag(P + "_tag", "t", {0.0, 0.0}));
     if (T) {
@@ -312,12 +314,12 @@ int World::del_misdirected_v(const Op &op, int v) {
         if (L.has_name(x.name())) cnt.inc("misdirected.namesake"); \
         if (built && !blind) { last = obs(); have_last = true; if (failed()) return 0; } }
     switch (v) {
-    case 0: { PICK_FOREIGN(Source, sources, hasSource, hasSource, B.createSource(nm, "t")) arg_class = "Block::deleteSource(foreign)"; TRY((void) L.deleteSource(x)); }
-    case 1: { PICK_FOREIGN(DataArray, dataArrays, hasDataArray, hasDataArray, B.createDataArray(nm, "t", DataType::Double, NDSize({2}))) arg_class = "Block::deleteDataArray(foreign)"; TRY((void) L.deleteDataArray(x)); }
-    case 2: { PICK_FOREIGN(DataFrame, dataFrames, hasDataFrame, hasDataFrame, B.createDataFrame(nm, "t", std::vector<Column>{Column{"c", "", DataType::Double}})) arg_class = "Block::deleteDataFrame(foreign)"; TRY((void) L.deleteDataFrame(x)); }
-    case 3: { PICK_FOREIGN(Tag, tags, hasTag, hasTag, B.createTag(nm, "t", std::vector<double>{1.0})) arg_class = "Block::deleteTag(foreign)"; TRY((void) L.deleteTag(x)); }
-    case 4: { PICK_FOREIGN(MultiTag, multiTags, hasMultiTag, hasMultiTag, B.createMultiTag(nm, "t", B.dataArrayCount() ? B.getDataArray((ndsize_t) 0) : B.createDataArray("positions of " + nm, "t", DataType::Double, NDSize({2, 1})))) arg_class = "Block::deleteMultiTag(foreign)"; TRY((void) L.deleteMultiTag(x)); }
-    case 5: { PICK_FOREIGN(Group, groups, hasGroup, hasGroup, B.createGroup(nm, "t")) arg_class = "Block::deleteGroup(foreign)"; TRY((void) L.deleteGroup(x)); }
+    case 0: { PICK_FOREIGN(Source, sources, hasSource, hasSource, B.createSource(nm, "t")) arg_class = "Block::deleteSource(foreign)"; misdirected_target = x.id(); TRY((void) L.deleteSource(x)); }
+    case 1: { PICK_FOREIGN(DataArray, dataArrays, hasDataArray, hasDataArray, B.createDataArray(nm, "t", DataType::Double, NDSize({2}))) arg_class = "Block::deleteDataArray(foreign)"; misdirected_target = x.id(); TRY((void) L.deleteDataArray(x)); }
+    case 2: { PICK_FOREIGN(DataFrame, dataFrames, hasDataFrame, hasDataFrame, B.createDataFrame(nm, "t", std::vector<Column>{Column{"c", "", DataType::Double}})) arg_class = "Block::deleteDataFrame(foreign)"; misdirected_target = x.id(); TRY((void) L.deleteDataFrame(x)); }
+    case 3: { PICK_FOREIGN(Tag, tags, hasTag, hasTag, B.createTag(nm, "t", std::vector<double>{1.0})) arg_class = "Block::deleteTag(foreign)"; misdirected_target = x.id(); TRY((void) L.deleteTag(x)); }
+    case 4: { PICK_FOREIGN(MultiTag, multiTags, hasMultiTag, hasMultiTag, B.createMultiTag(nm, "t", B.dataArrayCount() ? B.getDataArray((ndsize_t) 0) : B.createDataArray("positions of " + nm, "t", DataType::Double, NDSize({2, 1})))) arg_class = "Block::deleteMultiTag(foreign)"; misdirected_target = x.id(); TRY((void) L.deleteMultiTag(x)); }
+    case 5: { PICK_FOREIGN(Group, groups, hasGroup, hasGroup, B.createGroup(nm, "t")) arg_class = "Block::deleteGroup(foreign)"; misdirected_target = x.id(); TRY((void) L.deleteGroup(x)); }
     case 6: {   // a source handed a source that is not its child (a sibling, a cousin, one of another block)
         std::vector<Source> all = all_sources(L); if (two) { std::vector<Source> o = all_sources(F); all.insert(all.end(), o.begin(), o.end()); }
         if (all.size() < 2) { expect_unchanged.clear(); return 2; }
@@ -325,7 +327,7 @@ int World::del_misdirected_v(const Op &op, int v) {
         if (want_namesake) for (auto &c : all) if (c.id() != par.id() && par.hasSource(c.name()) && !par.hasSource(c.id())) { x = c; got = true; cnt.inc("misdirected.namesake"); break; }
         if (!got) { x = all[((unsigned) a[4]) % all.size()]; got = x.id() != par.id() && !par.hasSource(x.id()); }
         if (!got) { expect_unchanged.clear(); return 2; }
-        arg_class = "Source::deleteSource(not-a-child)"; TRY((void) par.deleteSource(x));
+        arg_class = "Source::deleteSource(not-a-child)"; misdirected_target = x.id(); TRY((void) par.deleteSource(x));
     }
     case 7: case 8: {   // a section (or the file) handed a section that is not its child
         std::vector<Section> all = all_sections(); if (all.size() < 2) { expect_unchanged.clear(); return 2; }
@@ -333,13 +335,13 @@ int World::del_misdirected_v(const Op &op, int v) {
             Section x; bool got = false;
             for (size_t i = 0; i < all.size(); i++) { Section c = all[(i + (unsigned) a[1]) % all.size()]; if (c.parent() && (!want_namesake || f.hasSection(c.name()))) { x = c; got = true; break; } }
             if (!got) { expect_unchanged.clear(); return 2; }
-            arg_class = "File::deleteSection(nested)"; TRY((void) f.deleteSection(x));
+            arg_class = "File::deleteSection(nested)"; misdirected_target = x.id(); TRY((void) f.deleteSection(x));
         }
         Section par = all[((unsigned) a[1]) % all.size()], x; bool got = false;
         if (want_namesake) for (auto &c : all) if (c.id() != par.id() && par.hasSection(c.name()) && !par.hasSection(c.id())) { x = c; got = true; cnt.inc("misdirected.namesake"); break; }
         if (!got) { x = all[((unsigned) a[4]) % all.size()]; got = x.id() != par.id() && !par.hasSection(x.id()); }
         if (!got) { expect_unchanged.clear(); return 2; }
-        arg_class = "Section::deleteSection(not-a-child)"; TRY((void) par.deleteSection(x));
+        arg_class = "Section::deleteSection(not-a-child)"; misdirected_target = x.id(); TRY((void) par.deleteSection(x));
     }
     case 9: {   // a section handed a property of another section
         std::vector<Section> all = all_sections(); if (all.size() < 2) { expect_unchanged.clear(); return 2; }
@@ -347,7 +349,7 @@ int World::del_misdirected_v(const Op &op, int v) {
         for (size_t i = 0; i < all.size() && !got; i++) { Section o = all[(i + (unsigned) a[4]) % all.size()]; if (o.id() == par.id()) continue;
             for (auto &p : o.properties()) if (!par.hasProperty(p.id()) && (!want_namesake || par.hasProperty(p.name()))) { x = p; got = true; break; } }
         if (!got) { expect_unchanged.clear(); return 2; }
-        arg_class = "Section::deleteProperty(foreign)"; TRY((void) par.deleteProperty(x));
+        arg_class = "Section::deleteProperty(foreign)"; misdirected_target = x.id(); TRY((void) par.deleteProperty(x));
     }
     case 10: {  // a tag handed a feature of another tag
         std::vector<Tag> ts = L.tags(); if (two) { std::vector<Tag> o = F.tags(); ts.insert(ts.end(), o.begin(), o.end()); }
@@ -355,7 +357,7 @@ int World::del_misdirected_v(const Op &op, int v) {
         Tag t = ts[((unsigned) a[1]) % ts.size()]; Feature x; bool got = false;
         for (size_t i = 0; i < ts.size() && !got; i++) { Tag o = ts[(i + (unsigned) a[4]) % ts.size()]; if (o.id() == t.id()) continue; if (o.featureCount()) { x = o.getFeature((size_t) 0); got = !t.hasFeature(x.id()); } }
         if (!got) { expect_unchanged.clear(); return 2; }
-        arg_class = "Tag::deleteFeature(foreign)"; TRY((void) t.deleteFeature(x));
+        arg_class = "Tag::deleteFeature(foreign)"; misdirected_target = x.id(); TRY((void) t.deleteFeature(x));
     }
     default: break;
     }
